@@ -22,6 +22,11 @@ func instrument(dir string, files []string) (string, error) {
 	replace := map[string]string{}
 	for i, rel := range files {
 		src := filepath.Join(repoDir, rel)
+		if _, err := os.Stat(src); os.IsNotExist(err) {
+			// the file was renamed / merged by a refactor: nothing to shim here; a monitor that then sees no
+			// atomic events reports inconclusive (too few scheduling points), never a violation
+			continue
+		}
 		fset := token.NewFileSet()
 		f, err := parser.ParseFile(fset, src, nil, parser.ImportsOnly)
 		if err != nil {
